@@ -1,6 +1,7 @@
 package main
 
 import (
+	"regexp"
 	"bytes"
 	"fmt"
 	"strings"
@@ -918,7 +919,7 @@ func (g *Gen) genC17() {
 			var it pitem
 			it.name = r.Alnum(1, 6)
 			if mode == 1 && r.P(40) {
-				it.name = r.ReCase(uriParamNames[r.N(len(uriParamNames))])
+				it.name = r.KnownParamName()
 			}
 			sb.WriteString(it.name)
 			switch r.N(5) {
@@ -1178,6 +1179,16 @@ func (g *Gen) genC17() {
 		br := r.Token(1, 14)
 		pre := r.Pick("", "z9hG4bK")
 		via := "SIP/2.0/UDP " + r.Host() + r.Pick("", ";rport", ";x=y;a") + ";" + r.ReCase("branch") + "=" + pre + br + r.Pick("", ";ttl=1", ";branch=zzz", ", SIP/2.0/TCP h;branch=q1")
+		if r.P(10) { // a value-less branch after a valued parameter: the first branch has no value => empty signature
+			via2 := "SIP/2.0/UDP " + r.Host() + ";" + r.Pick("received=10.0.0.1", "x=host-7_b", "ttl=1") + ";" + r.ReCase("branch") + r.Pick("", ";rport", ";branch=zz.9")
+			g.add(Case{Prop: "C17", Desc: "via-branch-novalue", Lines: []string{"viabrsig " + hx(via2)}, Check: func(out []string) string {
+				sg, l := sipsp.GetViaBrSig([]byte(via2))
+				if sg != 0 || l != 0 {
+					return fmt.Sprintf("GetViaBrSig(%q): the first branch parameter has no value, got signature %#x length %d", via2, sg, l)
+				}
+				return ""
+			}})
+		}
 		g.add(Case{Prop: "C17", Desc: "via-branch", Lines: []string{"viabrsig " + hx(via)}, Check: func(out []string) string {
 			_, l := sipsp.GetViaBrSig([]byte(via))
 			want := len(br)
@@ -1342,6 +1353,8 @@ type sigHdr struct {
 	finger bool
 }
 
+var viaOtherParamRe = regexp.MustCompile(`;(received|x|maddr|ttl|y)=([^;,\r\n]*)`)
+
 func (g *Gen) genC19() {
 	r := g.r
 	n := g.budget(1200, 40000)
@@ -1359,6 +1372,9 @@ func (g *Gen) genC19() {
 				val := r.genValue(t, false, method, &MsgSpec{sane: true})
 				if t == 5 {
 					val = "SIP/2.0/UDP " + r.Host() + r.Pick("", "", ";rport", ";ttl=3") + ";" + r.Pick("branch", "branch", r.ReCase("branch"), "BRANCH") + "=" + r.Pick("z9hG4bK", "", r.ReCase("z9hG4bK")) + r.Pick(r.Token(4, 12), "nashds8", r.Alnum(3, 7), r.Alnum(3, 7), "a.b-c", "deadbeef00112233") + r.Pick("", "", ";rport", ", SIP/2.0/TCP h2;branch=zz-9")
+					if r.P(8) { // a branch parameter WITHOUT value after a parameter that has one
+						val = "SIP/2.0/UDP " + r.Host() + ";" + r.Pick("received=10.0.0.1", "x=host-7_b", "maddr=a.b-c", "ttl=1") + ";" + r.Pick("branch", "Branch") + r.Pick("", ";rport", ";y=z-1")
+					}
 					if r.P(15) { // an old-style first Via without a branch parameter
 						val = "SIP/2.0/UDP " + r.Host() + r.Pick("", ";received=1.2.3.4", ";rport;ttl=1")
 					}
@@ -1455,6 +1471,17 @@ func (g *Gen) genC19() {
 					l[k].raw = h.raw[:p+1] + alt + h.raw[p+7:]
 					variants = append(variants, build(l))
 					vdesc = append(vdesc, "branch parameter name re-cased")
+				}
+				break
+			}
+		}
+		for k, h := range hs { // the value of another parameter of the first Via changed (only the branch is fingerprinted)
+			if h.typ == 5 {
+				if loc := viaOtherParamRe.FindStringSubmatchIndex(h.raw); loc != nil {
+					l := append([]sigHdr{}, hs...)
+					l[k].raw = h.raw[:loc[4]] + r.Pick("q.r-s_9", "10.9.8.7", "zz", "a-b") + h.raw[loc[5]:]
+					variants = append(variants, build(l))
+					vdesc = append(vdesc, "another parameter value of the first Via changed")
 				}
 				break
 			}
